@@ -425,6 +425,112 @@ pub fn overdeclared() -> Vec<Vec<u8>> {
   out
 }
 
+fn cbor_head(major: u8, n: u64) -> Vec<u8> {
+  let m = major << 5;
+  match n {
+    0..=23 => vec![m | n as u8],
+    24..=0xff => vec![m | 24, n as u8],
+    0x100..=0xffff => [vec![m | 25], (n as u16).to_be_bytes().to_vec()].concat(),
+    0x1_0000..=0xffff_ffff => [vec![m | 26], (n as u32).to_be_bytes().to_vec()].concat(),
+    _ => [vec![m | 27], n.to_be_bytes().to_vec()].concat(),
+  }
+}
+
+/// how the id of a crafted gallery item is written
+#[derive(Clone, Copy, PartialEq)]
+pub enum IdForm {
+  Valid,
+  Omitted,
+  Null,
+  Short,  // 31 bytes
+  Long,   // 37 bytes
+  Text,   // a text string instead of bytes
+}
+
+/// one crafted item: map of id / title / index
+fn crafted_item(j: usize, id: IdForm, title: bool, index: Option<u64>) -> Vec<u8> {
+  let mut fields: Vec<Vec<u8>> = Vec::new();
+  let txid = vec![0x10 + j as u8; 32];
+  match id {
+    IdForm::Valid => {
+      let mut v = txid.clone();
+      if j % 2 == 1 {
+        v.push(j as u8); // index j in the compact form
+      }
+      fields.push([vec![0x00], cbor_head(2, v.len() as u64), v].concat());
+    }
+    IdForm::Omitted => {}
+    IdForm::Null => fields.push(vec![0x00, 0xf6]),
+    IdForm::Short => fields.push([vec![0x00], cbor_head(2, 31), vec![7; 31]].concat()),
+    IdForm::Long => fields.push([vec![0x00], cbor_head(2, 37), vec![7; 37]].concat()),
+    IdForm::Text => fields.push([vec![0x00], cbor_head(3, 32), vec![0x61; 32]].concat()),
+  }
+  if title {
+    fields.push(vec![0x01, 0xa1, 0x00, 0x61, 0x41 + j as u8]);
+  }
+  if let Some(n) = index {
+    fields.push([vec![0x02], cbor_head(0, n)].concat());
+  }
+  [cbor_head(5, fields.len() as u64), fields.concat()].concat()
+}
+
+fn crafted_props(items: &[Vec<u8>], txids: Option<usize>, top_title: bool) -> Vec<u8> {
+  let mut fields: Vec<Vec<u8>> = Vec::new();
+  fields.push([vec![0x00], cbor_head(4, items.len() as u64), items.concat()].concat());
+  if top_title {
+    fields.push(vec![0x01, 0xa1, 0x00, 0x61, 0x74]);
+  }
+  if let Some(n) = txids {
+    let bytes: Vec<u8> = (0..n).map(|k| 0xc0 + (k / 32) as u8).collect();
+    fields.push([vec![0x02], cbor_head(2, n as u64), bytes].concat());
+  }
+  [cbor_head(5, fields.len() as u64), fields.concat()].concat()
+}
+
+/// Galleries of 1..=6 items in which every subset of positions lacks its id (omitted or null),
+/// inline and packed (txids shorter / equal / longer than the items, not a multiple of 32, indices
+/// present, zero, maximal and out of range), plus ids of wrong length or type at each position.
+pub fn idless_galleries() -> Vec<Vec<u8>> {
+  let mut out = Vec::new();
+  for n in 1..=6usize {
+    for mask in 0..(1u32 << n) {
+      let lacks = |j: usize| mask & (1 << j) != 0;
+      // inline: ids where the bit is clear
+      let items: Vec<Vec<u8>> =
+        (0..n).map(|j| crafted_item(j, if !lacks(j) { IdForm::Valid } else if j % 2 == 0 { IdForm::Omitted } else { IdForm::Null }, (mask as usize + j) % 3 == 0, None)).collect();
+      out.push(crafted_props(&items, None, mask % 2 == 1));
+      // packed: some items keep an inline id, the txids cover the first k items
+      let k = (mask as usize * 7 + n) % (n + 2);
+      let items: Vec<Vec<u8>> = (0..n)
+        .map(|j| {
+          let index = match (mask as usize + j) % 5 {
+            0 => None,
+            1 => Some(0),
+            2 => Some(j as u64 + 1),
+            3 => Some(u64::from(u32::MAX)),
+            _ => Some(300),
+          };
+          crafted_item(j, if lacks(j) { IdForm::Omitted } else { IdForm::Valid }, j % 2 == 0, index)
+        })
+        .collect();
+      out.push(crafted_props(&items, Some(32 * k), false));
+      if mask % 4 == 1 {
+        out.push(crafted_props(&items, Some(32 * k + 1 + (mask as usize % 31)), true)); // partial last chunk
+      }
+    }
+    // wrong length / type of one id, index out of range, at each position
+    for j in 0..n {
+      for form in [IdForm::Short, IdForm::Long, IdForm::Text] {
+        let items: Vec<Vec<u8>> = (0..n).map(|i| crafted_item(i, if i == j { form } else { IdForm::Valid }, false, None)).collect();
+        out.push(crafted_props(&items, None, false));
+      }
+      let items: Vec<Vec<u8>> = (0..n).map(|i| crafted_item(i, IdForm::Omitted, false, if i == j { Some(1 << 32) } else { None })).collect();
+      out.push(crafted_props(&items, Some(32 * n), false));
+    }
+  }
+  out
+}
+
 /// op 7 line: 7 as_brotli bytes..  (decoded in a child process: an allocation failure aborts)
 fn over_case(as_brotli: bool, b: &[u8]) -> Line {
   let mut l = L::new().p(7u8).p(as_brotli);
@@ -601,6 +707,12 @@ pub fn gen(rng: &mut Rng, tier: &str) -> Vec<Line> {
     let p = ratio_props(rng, k, r);
     let mut l = L::new().p(6u8);
     put_props_in(&mut l, &p);
+    v.push(l.done());
+  }
+  // ---- op 8: crafted galleries with missing / malformed ids, compared with the model's from_cbor
+  for b in idless_galleries() {
+    let mut l = L::new().p(8u8);
+    l.raw(&b);
     v.push(l.done());
   }
   // ---- op 7: declared lengths far beyond the input, every container and string; plain and inside brotli
@@ -816,6 +928,34 @@ pub fn run(case: &Line) -> Outcome {
           Err(e) => oracle = Err(format!("encode_properties failed: {e}")),
         }
         Outcome { obs: L::new().p(0u8).done(), oracle, cat }
+      })
+    }
+    8 => {
+      let b = c.rest_bytes();
+      guarded("gallery", || {
+        let p = ord::verif::envelope::properties_from_cbor(&b);
+        let mut l = L::new();
+        put_props_out(&mut l, &p);
+        // S: every item of a returned gallery has its id (the accessor the gallery pages use), no
+        // leftovers of the packed form; the same through Inscription::properties()
+        let mut oracle = Ok(());
+        let i = Inscription { properties: Some(b.clone()), ..Default::default() };
+        for q in [&p, &i.verif_properties()] {
+          for (k, it) in q.gallery.iter().enumerate() {
+            let r = std::panic::catch_unwind(std::panic::AssertUnwindSafe(|| ord::verif::envelope::item_id(it)));
+            if r.is_err() {
+              oracle = Err(format!("from_cbor returned a gallery whose item {k} has no id: Item::id() panics"));
+            }
+            if it.index.is_some() {
+              oracle = Err(format!("from_cbor left the packed index in item {k}"));
+            }
+          }
+          if !q.txids.is_empty() {
+            oracle = Err("from_cbor left txids in its result".into());
+          }
+        }
+        let cat = format!("gallery/{}", if p.gallery.is_empty() { "dropped" } else { "kept" });
+        Outcome { obs: l.done(), oracle, cat }
       })
     }
     7 if std::env::var_os("HX_CHILD").is_none() => {
